@@ -1134,12 +1134,10 @@ fn main() {
     let mut all = St::default();
 
     // ---- phase 1: in-thread sinks --------------------------------------------------------------
-    // 3 keys up to `len3`; the longest length with 2 keys (thorough)
+    // 3 keys up to `len3` inputs (from the empty history), plus every history of len3+1 inputs over 2 keys
     let len3: u32 = tier.pick(4, 5);
     let mut spaces = vec![Space { nk: 3, min_len: 0, max_len: len3 }];
-    if tier.pick(false, true) {
-        spaces.push(Space { nk: 2, min_len: 6, max_len: 6 });
-    }
+    spaces.push(Space { nk: 2, min_len: len3 + 1, max_len: len3 + 1 });
     let mut depth = 0;
     for sp in &spaces {
         depth = depth.max(sp.max_len);
